@@ -228,9 +228,12 @@ def _history(ns, spec, run):
         res = {}
         try:
             # cold: derive from a fresh object, observe the derived object
+            E.reset_process_state()
             cold_src = pl.build(ns, model_spec, {})
             cold = _observe(ns, _derive(ns, cold_src, how, leaves), leaves)
+            E.reset_process_state()
             fresh = _observe(ns, pl.build(ns, model_spec, {}), leaves)
+            E.reset_process_state()
             # warm: every query first (leaf-only interpretations: the open finding about named sub-propositions is excluded), then derive
             m = pl.build(ns, model_spec, {})
             _observe(ns, m, leaves)
